@@ -268,17 +268,23 @@ class Cid(object):
             if row:
                 row_type = row[0].lower().strip()
                 row_data = (row[1:] + [""] * 6)[:6]
-                if row_type == "d":
-                    self.add_data_format_row(row_data)
-                elif row_type == "f":
-                    self.add_field_format_row(row_data)
-                elif row_type == "c":
-                    self.add_check_row(row_data)
-                elif row_type != "":
-                    # Raise error when value is not supported.
-                    raise errors.InterfaceError(
-                        'CID row type is "%s" but must be empty or one of: C, D, or F' % row_type, self._location
-                    )
+                try:
+                    if row_type == "d":
+                        self.add_data_format_row(row_data)
+                    elif row_type == "f":
+                        self.add_field_format_row(row_data)
+                    elif row_type == "c":
+                        self.add_check_row(row_data)
+                    elif row_type != "":
+                        # Raise error when value is not supported.
+                        raise errors.InterfaceError(
+                            'CID row type is "%s" but must be empty or one of: C, D, or F' % row_type, self._location
+                        )
+                except errors.InterfaceError as error:
+                    if error.location is None:
+                        # For example text Python's tokenizer cannot split; report the row this is about.
+                        error.prepend_message("cannot process row of interface definition", self._location)
+                    raise
             self._location.advance_line()
         if self.data_format is None:
             raise errors.InterfaceError("data format must be specified", self._location)
